@@ -39,7 +39,7 @@ func (c02) Cases(tier string, seed uint64) []core.Case {
 	r := core.NewRng(core.Mix(seed, 0xC02))
 	nh := 320
 	if tier == "thorough" {
-		nh = 8000
+		nh = 24000
 	}
 	var out []core.Case
 	cfgs := core.CoverConfigs(r, nh)
